@@ -25,7 +25,6 @@ import (
 // ICX is 10^18 loop.
 var ICX = new(big.Int).Exp(big.NewInt(10), big.NewInt(18), nil)
 
-func icx(n int64) *big.Int { return new(big.Int).Mul(big.NewInt(n), ICX) }
 
 // Quiet silences goloop's global logger.
 func Quiet() {
@@ -921,13 +920,4 @@ func (w *World) Governance(tx icsim.Transaction) error {
 		return fmt.Errorf("governance transaction failed: %v", rc[1].Error())
 	}
 	return nil
-}
-
-// DebugRewardVoting prints the reward-side (icreward) delegating/bonding of an account.
-func (w *World) DebugRewardVoting(a module.Address) string {
-	wss := icsim.VerifWorldSnapshot(w.Sim)
-	es := wss.GetExtensionSnapshot().NewState(true).(*iiss.ExtensionStateImpl)
-	d, _ := es.Reward.GetDelegating(a)
-	b, _ := es.Reward.GetBonding(a)
-	return fmt.Sprintf("D=%+v B=%+v", d, b)
 }
